@@ -79,39 +79,78 @@ func (c *Ctx) numericSites() []numSite {
 			if role == "" {
 				return
 			}
-			info := p.TypesInfo
-			ast.Inspect(fd.Body, func(nd ast.Node) bool {
-				is, ok := nd.(*ast.IfStmt)
-				if !ok || is.Init == nil {
+			// the predicate may sit in the function itself or in a same-package helper it
+			// calls (isUintLit, a method of a small syntax object, …): followed to depth 3;
+			// the site is the statement of the role function that leads there.
+			seen := map[*types.Func]bool{fn: true}
+			var walk func(info *types.Info, body ast.Node, depth int, at token.Pos)
+			walk = func(info *types.Info, body ast.Node, depth int, at token.Pos) {
+				ast.Inspect(body, func(nd ast.Node) bool {
+					call, ok := nd.(*ast.CallExpr)
+					if !ok {
+						return true
+					}
+					f := calleeOf(info, call)
+					if f == nil || f.Pkg() == nil {
+						return true
+					}
+					pos := at
+					if depth == 0 {
+						pos = call.Pos()
+					}
+					if f.Pkg().Path() == "strconv" && (strings.HasPrefix(f.Name(), "Parse") || f.Name() == "Atoi") && f.Name() != "ParseFloat" && f.Name() != "ParseBool" {
+						pred := f.Name()
+						if numSignTest(body, call) {
+							pred += "&&>=0"
+						}
+						if strings.HasPrefix(pred, "Atoi") {
+							pred = "ParseInt" + strings.TrimPrefix(pred, "Atoi")
+						}
+						out = append(out, numSite{fn, pos, pred, role})
+						return true
+					}
+					if f.Pkg().Path() == path && depth < 3 && !seen[f] && !f.Exported() {
+						if hd := c.funcDecl(f); hd != nil && hd.Body != nil {
+							seen[f] = true
+							walk(c.pkg(path).TypesInfo, hd.Body, depth+1, pos)
+						}
+					}
 					return true
-				}
-				as, ok := is.Init.(*ast.AssignStmt)
-				if !ok || len(as.Rhs) != 1 {
-					return true
-				}
-				call, ok := as.Rhs[0].(*ast.CallExpr)
-				if !ok {
-					return true
-				}
-				f := calleeOf(info, call)
-				if f == nil || f.Pkg() == nil || f.Pkg().Path() != "strconv" {
-					return true
-				}
-				pred := f.Name()
-				// extra sign test in the condition
-				cond := strings.ReplaceAll(exprString(is.Cond), " ", "")
-				if strings.Contains(cond, ">=0") {
-					pred += "&&>=0"
-				}
-				if pred == "Atoi" {
-					pred = "ParseInt"
-				}
-				out = append(out, numSite{fn, is.Pos(), pred, role})
-				return true
-			})
+				})
+			}
+			walk(p.TypesInfo, fd.Body, 0, fd.Pos())
 		})
 	}
 	return out
+}
+
+// numSignTest: the value parsed by call is additionally tested `>= 0` in body (in the
+// condition of the if statement that holds the call, or on the variable it is assigned to).
+func numSignTest(body ast.Node, call *ast.CallExpr) bool {
+	found := false
+	ast.Inspect(body, func(nd ast.Node) bool {
+		switch x := nd.(type) {
+		case *ast.IfStmt:
+			if as, ok := x.Init.(*ast.AssignStmt); ok && len(as.Rhs) == 1 && as.Rhs[0] == ast.Expr(call) {
+				if strings.Contains(strings.ReplaceAll(exprString(x.Cond), " ", ""), ">=0") {
+					found = true
+				}
+			}
+		case *ast.AssignStmt:
+			if len(x.Rhs) == 1 && x.Rhs[0] == ast.Expr(call) && len(x.Lhs) > 0 {
+				if id, ok := x.Lhs[0].(*ast.Ident); ok && id.Name != "_" {
+					ast.Inspect(body, func(m ast.Node) bool {
+						if be, ok := m.(*ast.BinaryExpr); ok && be.Op == token.GEQ && exprString(be.X) == id.Name && exprString(be.Y) == "0" {
+							found = true
+						}
+						return true
+					})
+				}
+			}
+		}
+		return true
+	})
+	return found
 }
 
 func ruleENCNUM(c *Ctx) []Obligation {
@@ -597,19 +636,114 @@ func ruleENCRAW(c *Ctx) []Obligation {
 // TrimLeft / TrimRight call, which strips a set of bytes rather than one sigil.
 func (c *Ctx) strippedSigils(p *packages.Package, fd *ast.FuncDecl, visiting map[*types.Func]bool) (pre, suf, cutset string) {
 	info := p.TypesInfo
-	constOf := func(e ast.Expr, bind map[types.Object]string) (string, bool) {
+	// constant strings held in the fields of a small syntax object (a local or package-level
+	// variable initialised with a composite literal, or the literal itself):
+	// fbind[receiver object][field] inside a method called on it
+	type fields = map[string]string
+	var litFields func(e ast.Expr, body ast.Node, fbind map[types.Object]fields) fields
+	litFields = func(e ast.Expr, body ast.Node, fbind map[types.Object]fields) fields {
+		e = unparen(e)
+		if u, ok := e.(*ast.UnaryExpr); ok && u.Op == token.AND {
+			e = unparen(u.X)
+		}
+		switch x := e.(type) {
+		case *ast.CompositeLit:
+			st := structOf(info.TypeOf(x))
+			if st == nil {
+				return nil
+			}
+			out := fields{}
+			for i, el := range x.Elts {
+				name, val := "", el
+				if kv, ok := el.(*ast.KeyValueExpr); ok {
+					if id, ok := kv.Key.(*ast.Ident); ok {
+						name, val = id.Name, kv.Value
+					}
+				} else if i < st.NumFields() {
+					name = st.Field(i).Name()
+				}
+				if tv := info.Types[val]; name != "" && tv.Value != nil && tv.Value.Kind() == constant.String {
+					out[name] = constant.StringVal(tv.Value)
+				}
+			}
+			return out
+		case *ast.Ident:
+			obj := info.ObjectOf(x)
+			if f, ok := fbind[obj]; ok {
+				return f
+			}
+			v, isVar := obj.(*types.Var)
+			if !isVar {
+				return nil
+			}
+			var init ast.Expr
+			n := 0
+			find := func(root ast.Node) {
+				ast.Inspect(root, func(nd ast.Node) bool {
+					switch y := nd.(type) {
+					case *ast.AssignStmt:
+						for i, l := range y.Lhs {
+							if id, ok := l.(*ast.Ident); ok && info.ObjectOf(id) == obj {
+								n++
+								if len(y.Lhs) == len(y.Rhs) {
+									init = y.Rhs[i]
+								}
+							}
+						}
+					case *ast.ValueSpec:
+						for i, id := range y.Names {
+							if info.ObjectOf(id) == obj && i < len(y.Values) {
+								n++
+								init = y.Values[i]
+							}
+						}
+					}
+					return true
+				})
+			}
+			if v.Parent() == v.Pkg().Scope() {
+				if pk := c.pkg(v.Pkg().Path()); pk != nil {
+					for _, f := range pk.Syntax {
+						for _, d := range f.Decls {
+							if gd, ok := d.(*ast.GenDecl); ok {
+								find(gd)
+							}
+						}
+					}
+				}
+			} else if body != nil {
+				find(body)
+			}
+			if n == 1 && init != nil {
+				if _, isID := unparen(init).(*ast.Ident); !isID {
+					return litFields(init, body, fbind)
+				}
+			}
+		}
+		return nil
+	}
+	constOf := func(e ast.Expr, bind map[types.Object]string, body ast.Node, fbind map[types.Object]fields) (string, bool) {
 		if tv := info.Types[e]; tv.Value != nil && tv.Value.Kind() == constant.String {
 			return constant.StringVal(tv.Value), true
 		}
-		if id, ok := unparen(e).(*ast.Ident); ok {
-			if v, ok := bind[info.ObjectOf(id)]; ok {
+		switch x := unparen(e).(type) {
+		case *ast.Ident:
+			if v, ok := bind[info.ObjectOf(x)]; ok {
 				return v, true
+			}
+		case *ast.SelectorExpr:
+			if sel, ok := info.Selections[x]; ok && sel.Kind() == types.FieldVal {
+				if f := litFields(x.X, body, fbind); f != nil {
+					if v, ok := f[x.Sel.Name]; ok {
+						return v, true
+					}
+				}
 			}
 		}
 		return "", false
 	}
-	var scan func(p *packages.Package, fd *ast.FuncDecl, bind map[types.Object]string)
-	scan = func(p *packages.Package, fd *ast.FuncDecl, bind map[types.Object]string) {
+	var scan func(p *packages.Package, fd *ast.FuncDecl, bind map[types.Object]string, fbind map[types.Object]fields)
+	scan = func(p *packages.Package, fd *ast.FuncDecl, bind map[types.Object]string, fbind map[types.Object]fields) {
 		info = p.TypesInfo
 		ast.Inspect(fd.Body, func(nd ast.Node) bool {
 			call, ok := nd.(*ast.CallExpr)
@@ -621,7 +755,7 @@ func (c *Ctx) strippedSigils(p *packages.Package, fd *ast.FuncDecl, visiting map
 				return true
 			}
 			if f.Pkg().Path() == "strings" && len(call.Args) == 2 {
-				v, isConst := constOf(call.Args[1], bind)
+				v, isConst := constOf(call.Args[1], bind, fd.Body, fbind)
 				switch f.Name() {
 				case "HasPrefix", "TrimPrefix":
 					if isConst {
@@ -643,23 +777,34 @@ func (c *Ctx) strippedSigils(p *packages.Package, fd *ast.FuncDecl, visiting map
 				}
 				sig := f.Type().(*types.Signature)
 				nb := map[types.Object]string{}
+				nfb := map[types.Object]fields{}
 				for i, a := range call.Args {
-					if v, ok := constOf(a, bind); ok && i < sig.Params().Len() {
+					if i >= sig.Params().Len() {
+						break
+					}
+					if v, ok := constOf(a, bind, fd.Body, fbind); ok {
 						nb[sig.Params().At(i)] = v
+					} else if fl := litFields(a, fd.Body, fbind); len(fl) > 0 {
+						nfb[sig.Params().At(i)] = fl
 					}
 				}
-				if len(nb) == 0 {
+				if se, ok := unparen(call.Fun).(*ast.SelectorExpr); ok && sig.Recv() != nil {
+					if fl := litFields(se.X, fd.Body, fbind); len(fl) > 0 {
+						nfb[sig.Recv()] = fl
+					}
+				}
+				if len(nb) == 0 && len(nfb) == 0 {
 					return true
 				}
 				visiting[f] = true
 				saved := info
-				scan(c.declPkg[hfd], hfd, nb)
+				scan(c.declPkg[hfd], hfd, nb, nfb)
 				info = saved
 				delete(visiting, f)
 			}
 			return true
 		})
 	}
-	scan(p, fd, map[types.Object]string{})
+	scan(p, fd, map[types.Object]string{}, map[types.Object]map[string]string{})
 	return pre, suf, cutset
 }
